@@ -487,6 +487,8 @@ def refusal_class(world, op, out) -> str:
             return "unknown_node"
         return "protected_attribute"
     if kind == "paint":
+        if op.get("second_frame") is not None:
+            return "paint_two_time_points"
         return "paint_subedit_refused:" + ("conflict_without_force" if "division" in msg else out.exc_name or "")
     return f"other:{out.exc_name}"
 
@@ -623,7 +625,7 @@ class C01Oracle(Oracle):
             if not later:
                 return None
             op["edge"] = [u, _pick(rnd, later)]
-            op["attrs"] = {CUSTOM_EDGE: rnd.randint(1, 9)} if rnd.random() < 0.6 else {}
+            op["attrs"] = {CUSTOM_EDGE: rnd.choice([0, 0, 1, 4, 9])} if rnd.random() < 0.6 else {}
         elif sub == "DeleteEdge":
             op["edge"] = list(_pick(rnd, w.edges()))
         elif sub == "UpdateNodeAttrs":
